@@ -9,7 +9,8 @@ namespace Driver.Broker
 open Wasp.Broker Wasp.Dist
 
 structure CState where
-  midCan : List (Int × Nat) := []    -- raw id ↦ canonical index
+  midCan : List (Int × Nat) := []    -- raw id ↦ canonical index (while the exchange is open)
+  canMid : List (Nat × Int) := []    -- canonical index ↦ raw id (kept)
   nextCan : Nat := 0
   outst : List (Nat × Nat) := []     -- (canonical index, qos) of deliveries this client has not acknowledged
   toldClosed : Bool := false         -- CLOSED is reported once per connection
@@ -71,7 +72,7 @@ def renderClient (name : String) (cs : CState) (pkts : List Pkt) : CState × Str
         | none =>
           let c := cs.nextCan + 1
           let q := if (it.key.splitOn ",q=2,").length > 1 then 2 else 1
-          ({ cs with midCan := cs.midCan ++ [(it.mid, c)], nextCan := c, outst := cs.outst ++ [(c, q)] }, out ++ [s!"{it.key},m=#{c})"])
+          ({ cs with midCan := cs.midCan ++ [(it.mid, c)], canMid := cs.canMid ++ [(c, it.mid)], nextCan := c, outst := cs.outst ++ [(c, q)] }, out ++ [s!"{it.key},m=#{c})"])
     else if it.kind = "pubrel" then
       match canOf cs it.mid with
       | some c => (cs, out ++ [s!"pubrel(#{c})"])
@@ -116,7 +117,7 @@ def showState (n : Node) : String :=
 
 def clientRaw (st : St) (c : String) (can : String) : Option Int :=
   let k := (can.drop 1).toNat!
-  ((st.clients.find? (fun e => e.1 == c)).bind (fun e => (e.2.midCan.find? (fun m => m.2 == k)))).map (·.1)
+  ((st.clients.find? (fun e => e.1 == c)).bind (fun e => (e.2.canMid.find? (fun m => m.1 == k)))).map (·.2)
 
 def known (st : St) (c : String) : Bool := st.clients.any (fun e => e.1 == c)
 
@@ -155,10 +156,13 @@ def step (st : St) (line : String) : St × String :=
     | some raw =>
       if !writable st c then observe st "write-failed" else
       let k := (can.drop 1).toNat!
-      let st := if kind = "puback" ∨ kind = "pubcomp" then
-          { st with clients := st.clients.map (fun (e : String × CState) =>
-            if e.1 == c then (c, { e.2 with outst := e.2.outst.filter (fun d => d.1 != k), midCan := e.2.midCan.filter (fun m => m.2 != k) }) else e) }
-        else st
+      -- the exchange is complete when the delivery's final acknowledgement is sent
+      let st : St := { st with clients := st.clients.map (fun (e : String × CState) =>
+            if e.1 == c then
+              let fin := e.2.outst.filter (fun (d : Nat × Nat) => d.1 == k && ((d.2 == 1 && kind == "puback") || (d.2 == 2 && kind == "pubcomp")))
+              if fin.isEmpty then e
+              else (c, { e.2 with outst := e.2.outst.filter (fun (d : Nat × Nat) => d.1 != k), midCan := e.2.midCan.filter (fun (m : Int × Nat) => m.2 != k) })
+            else e) }
       let pkt := match kind with
         | "puback" => CPkt.puback raw | "pubrec" => CPkt.pubrec raw | "pubcomp" => CPkt.pubcomp raw | "pubrel" => CPkt.pubrel raw
         | _ => CPkt.other
@@ -171,7 +175,7 @@ def step (st : St) (line : String) : St × String :=
     let st : St := { st with clients := st.clients.map (fun (e : String × CState) =>
       if e.1 == c then (c, { e.2 with outst := [] }) else e) }
     let w := todo.foldl (fun (w : World) d =>
-      match (cs.midCan.find? (fun m => m.2 == d.1)).map (·.1) with
+      match (cs.canMid.find? (fun m => m.1 == d.1)).map (·.2) with
       | none => w
       | some raw =>
         if d.2 = 1 then w.clientPacket c (.puback raw)
@@ -246,8 +250,11 @@ def step (st : St) (line : String) : St × String :=
   | ["expire", n] => observe { st with w := st.w.sweep n.toNat! } "ok"
   | ["idle", ms] => observe { st with w := st.w.idle (ms.toInt?.getD 0) } "ok"
   | ["state", n] => (st, showState (st.w.node n.toNat!))
+  | ["setpool", n, a, b] =>
+    let nd := st.w.node n.toNat!
+    ({ st with w := st.w.setNode n.toNat! { nd with pool := Wasp.IdPool.new (a.toInt?.getD 0) (b.toInt?.getD 0) } }, "ok")
   | ["pool", n] =>
-    (st, "[" ++ " ".intercalate ((st.w.node n.toNat!).pool.ivs.map (fun iv => s!"[{iv.1} {iv.2}]")) ++ "]")
+    (st, s!"free={((st.w.node n.toNat!).pool.ivs.map (fun iv => iv.2 - iv.1)).foldl (· + ·) 0}")
   | ["log", n] => (st, "[" ++ " ".intercalate ((st.w.node n.toNat!).log.map (fun p => s!"{Driver.safe p.topic}={showPl p.payload}")) ++ "]")
   | ["bycid", n, m, c] =>
     match sessByClientID (st.w.node n.toNat!).dist m c with
